@@ -697,8 +697,6 @@ class Exec:
                     # bitwise complement of a machine word: the operand's width is not tracked for concrete values,
                     # lengths and indices are usize
                     return (~x) & (2 ** 64 - 1)
-                if is_sym(x) and z3.is_int(x):
-                    return (2 ** 64 - 1) - x
                 raise Unsupported('bitwise Not')
             if op == 'Neg':
                 return -x
